@@ -16,11 +16,12 @@ RULE = ("a case = a well-formed ordered list of <= 12 capability records (every 
         "on the whole list == merge in order of the real parser's results on each record alone. Oracle 2 (paging): after get_capabilities() "
         "against a simulated device the supported_*/supports_*/min/max snapshot is identical whether the device sends all records in one "
         "response or splits them at any point k across a first response (more flag set) and an 'additional' response - for every k; and (oracle 3) identical again when ONE object first receives the same first page with an empty additional page and is then queried again with the full list split at k. "
-        "distinct = (record list, split point); non-trivial = lists with >= 2 records")
+        "Also every ordered pair of known ids and all orders of related mode/preset records (oracle 1), long lists of maximum-size records over V2 and V3, and paging with a capabilities-id notification (frame type 5) pushed ahead of each page. distinct = (record list, split point); non-trivial = lists with >= 2 records")
 ASSUMPTIONS = ["only well-formed lists (every record's size inside the body, count == number of records) are judged; ill-formed ones belong to C14",
                "single-record interpretations come from the real parser, so the oracle needs no capability value tables"]
-ANCHORS = ["command.py:CapabilitiesResponse._parse_capabilities", "command.py:CapabilitiesResponse.merge",
-           "device.py:AirConditioner.get_capabilities", "device.py:AirConditioner._update_capabilities"]
+# reach anchors: only entry points this check calls itself or callbacks the event loop needs (robust against internal refactors);
+# that the mechanism was really exercised is demanded through MIN_NONTRIVIAL / MIN_HIST outcome counts
+ANCHORS = ["command.py:Response.construct", "device.py:AirConditioner.get_capabilities"]
 MIN_NONTRIVIAL = {"quick": 10000, "thorough": 150000}
 MIN_HIST = {"quick": {"paging-compared": 3000}, "thorough": {"paging-compared": 40000}}
 WORKERS = {"quick": 1, "thorough": 16}
@@ -69,9 +70,34 @@ def _lists(ctx, rng):
         yield [_rand_record(rng) for _ in range(n)], (rng.random() < (0.3 if quick else 0.5))
 
 
+def _pairs(ctx, rng):
+    """Every ordered pair of known ids (a few values each): does interpreting one record look at what another one left behind?"""
+    vals = [0, 1, 2, 3, 5, 9]
+    for a in KNOWN + [TEMPS]:
+        for b in KNOWN + [TEMPS]:
+            va = bytes([rng.choice(vals)]) if a != TEMPS else bytes(rng.choice([[34, 60, 34, 60, 34, 60, 1], [32, 64, 32, 64, 32, 64, 0]]))
+            vb = bytes([rng.choice(vals)]) if b != TEMPS else bytes(rng.choice([[34, 60, 34, 60, 34, 60, 1], [32, 64, 32, 64, 32, 64, 0]]))
+            yield [(a, va), (b, vb)]
+    # modes x presets x fan: all value combinations of three records that describe related features, in all six orders
+    import itertools
+    for mv_ in (0, 1, 2, 3, 4, 5, 8, 9, 14):
+        for tv in (0, 1, 2, 3):
+            for ev in (0, 1, 2):
+                recs = [(0x0214, bytes([mv_])), (0x021A, bytes([tv])), (0x0212, bytes([ev]))]
+                for perm in itertools.permutations(recs):
+                    yield list(perm)
+
+
 def generate(ctx, rng):
     for i, (lst, paging) in enumerate(_lists(ctx, rng)):
-        yield ("l", i), {"records": [[cid, val] for cid, val in lst], "paging": paging}
+        yield ("l", i), {"records": [[cid, val] for cid, val in lst], "paging": paging, "noise": paging and i % 3 == 0}
+    for i, lst in enumerate(_pairs(ctx, rng)):
+        yield ("p", i), {"records": [[cid, val] for cid, val in lst], "paging": False}
+    # long lists of maximum-size records (frames of 150-250 bytes), also over the V3 transport
+    for j in range(12 if ctx.tier == "quick" else 300):
+        n = rng.randint(9, 12)
+        lst = [(rng.choice(KNOWN + UNKNOWN), rng.randbytes(10)) for _ in range(n)]
+        yield ("big", j), {"records": [[cid, val] for cid, val in lst], "paging": True, "version": 2 + j % 2, "splits": sorted({0, 1, n // 2, n - 1, n})}
 
 
 def _parse(records, more=False):
@@ -116,14 +142,25 @@ def run_case(ctx, case):
         return
     # ---- oracle 2: paging invariance through get_capabilities()
     snaps = []
-    for k in [None] + list(range(n + 1)):
+    version = case.get("version", 2)
+    tok, dkey = bytes(range(64)), bytes(range(32))
+    splits = case.get("splits") or list(range(n + 1))
+    for k in [None] + list(splits):
         net = H.new_net()
         model = ACModel()
         model.caps_pages = [records] if k is None else [records[:k], records[k:]]
-        dev = SimDevice(net, version=2, device_id=0x55, ac=model)
+        dev = SimDevice(net, version=version, token=tok, key=dkey, device_id=0x55, ac=model)
+        if case.get("noise") and k is not None:
+            # the device also pushes a capabilities-id notification (frame type 5) ahead of each page in the same exchange
+            def on_exchange(conn, req, packets, meta, dev=dev):
+                note = acframe.build(bytes([0xB5, 0x01, 0x14, 0x02, 0x01, 0x01]), 5)
+                return [(0, dev.wrap(conn, note))] + [(0, p) for p in packets]
+            dev.on_exchange = on_exchange
 
-        async def go(loop):
+        async def go(loop, dev=dev):
             ac = AC(ip=dev.host, port=dev.port, device_id=dev.device_id)
+            if version == 3:
+                await ac.authenticate(tok, dkey)
             await ac.get_capabilities()
             return c13._snapshot(ac)[1]
 
@@ -137,7 +174,8 @@ def run_case(ctx, case):
         snaps.append((k, snap, pages))
     base = snaps[0][1]
     for k, snap, pages in snaps[1:]:
-        ctx.count((key, k), nontrivial=n >= 2, kind="paging-compared")
+        ctx.count((key, k, version, bool(case.get("noise"))), nontrivial=n >= 2, kind="paging-compared" + ("-v3" if version == 3 else "") + ("-with-notification" if case.get("noise") else ""))
+        ctx.bump("paging-compared") if (version == 3 or case.get("noise")) else None
         if pages != [0, 1]:
             ctx.violation("second-page-not-requested" if not _has_short_temps(records[:k]) else _mech(records),
                           f"device advertised more capabilities but requests seen were {pages} (split {k})", case)
